@@ -9,6 +9,13 @@ TRUST = [
 ]
 
 CONFIG = {
+    "C12": {
+        "level": "exploration",
+        "gates_of": ["C01"],
+        "assumptions": TRUST + ["max batch size is set above any level size so that one Queryer.Query invocation equals one HTTP call at the fake transport", "plan levels are taken from the real SequentialPlanner on the same context"],
+        "quick": {"tests": [("TestC12", 700)], "shards": 4, "timeout": 600},
+        "thorough": {"tests": [("TestC12", 8000)], "shards": 16, "timeout": 3000},
+    },
     "C06": {
         "level": "exploration",
         "gates_of": ["C01"],
